@@ -1039,11 +1039,9 @@ class Interp:
                 return self.bi.construct(fv.name, args, kwargs, st, k)
             if fv.kind == "bound":
                 c = cx.contracts.get((fv.cls, fv.name))
-                if c is not None and not cx.is_target(fv.cls, fv.name):
-                    return c.summary(self, fv.self_ref, args, kwargs, st, k)
-                if (fv.cls, fv.name) in cx.inline or cx.is_target_helper(fv.cls, fv.name):
+                if (fv.cls, fv.name) in cx.inline:
                     return self.inline_call(fv.node, fv.cls, [fv.self_ref] + list(args), kwargs, st, k, {})
-                if c is not None:
+                if c is not None and not cx.is_target(fv.cls, fv.name):
                     return c.summary(self, fv.self_ref, args, kwargs, st, k)
                 raise Unsupported("call of %s.%s: no contract and not inlinable" % (fv.cls, fv.name))
             if fv.kind == "lambda":
